@@ -3,9 +3,9 @@
 use crate::http::response::ResponseError;
 use crate::http::{Request, Response, StatusCode};
 
-use std::io::Write;
+use std::io::{ErrorKind, Read, Write};
 use std::net::{SocketAddr, TcpStream};
-use std::time::Duration;
+use std::time::{Duration, Instant};
 
 /// Proxies a request to the given target, timing out and returning an error 502 after `timeout`.
 /// Always returns a response.
@@ -22,8 +22,14 @@ fn proxy_request_internal(
     target: SocketAddr,
     timeout: Duration,
 ) -> Result<Response, ResponseError> {
+    // The timeout bounds the whole exchange with the upstream, not just the connection attempt
+    let deadline = Instant::now() + timeout;
+
     let mut stream =
         TcpStream::connect_timeout(&target, timeout).map_err(|_| ResponseError::Stream)?;
+    stream
+        .set_write_timeout(Some(timeout))
+        .map_err(|_| ResponseError::Stream)?;
 
     let mut cloned_request = request.clone();
     cloned_request
@@ -34,5 +40,29 @@ fn proxy_request_internal(
         .write_all(&request_bytes)
         .map_err(|_| ResponseError::Stream)?;
 
-    Response::from_stream(&mut stream)
+    Response::from_stream(&mut DeadlineReader {
+        stream: &stream,
+        deadline,
+    })
+}
+
+/// Reads from the upstream until the deadline, after which every read fails. Each read may only wait for
+///   the time that is left, so an upstream that stalls, or sends its response a few bytes at a time, cannot
+///   hold the request (and the thread serving it) beyond the timeout.
+struct DeadlineReader<'a> {
+    stream: &'a TcpStream,
+    deadline: Instant,
+}
+
+impl Read for DeadlineReader<'_> {
+    fn read(&mut self, buf: &mut [u8]) -> std::io::Result<usize> {
+        let remaining = self
+            .deadline
+            .checked_duration_since(Instant::now())
+            .filter(|remaining| !remaining.is_zero())
+            .ok_or_else(|| std::io::Error::new(ErrorKind::TimedOut, "upstream timed out"))?;
+
+        self.stream.set_read_timeout(Some(remaining))?;
+        self.stream.read(buf)
+    }
 }
